@@ -1164,8 +1164,14 @@ class Sequence:
         #If dmax has been computed and we want seqDeltaMax and we have seqDeltaMax
         elif self.dmax != -1 and returnSeqDeltaMax and self.seqDeltaMax is not None:
           return (self.dmax, self.seqDeltaMax)
+
+        # Not (fully) cached - recompute from scratch. A cached dmax must be
+        # discarded here, else no candidate could improve on it and the
+        # permutant would never be set
+        self.dmax = -1
+
         #If there are no charged residues
-        elif(self.FCR() == 0):
+        if(self.FCR() == 0):
             self.dmax = 0
 
         #################################################################
